@@ -567,6 +567,11 @@ def model_task(task, ybin, root):
         stats_big = True
     else:
         stats_big = False
+    # the definitions the near-identical model differs in carry documentation comments in half of the models
+    if rng.fork("doccomments").chance(0.5):
+        for nm_, txt_ in (("SteerEnumQ", "how the sample was acquired"), ("SteerRecQ", "one sample")):
+            if pkg_a.find(nm_) is not None:
+                pkg_a.find(nm_).comment = txt_
     edit = rng.choice(EDITS)
     pkg_b = near_identical(pkg_a, edit)
     stats, viols, cases = {"models_with_cpp": 1 if want_cpp else 0, "edit_" + edit: 1, "models_with_a_schema_text_of_some_20_kB": 1 if stats_big else 0}, [], []
